@@ -1,15 +1,16 @@
-\* exhaustive: methods x statuses x classes, up to three calls, submissions repeated once
+\* thorough; exhaustive over the key-material dimension: every key option x one call x every endpoint x every class, 200 / 404 answers
+\* (one repetition of a submission); the construction law and the verification invariants on all of it
 CONSTANTS
-  Statuses = {200, 204, 301, 400, 404, 429, 500}
-  RetryStatuses = {408, 429, 503}
+  Statuses = {200, 404}
+  RetryStatuses = {429}
   RetryBodies = {"valid"}
   UndecodableBodies = {"wrongType"}
-  AfterRetryStatuses = {200, 204, 301, 400, 404, 500}
+  AfterRetryStatuses = {200}
   MaxAnswers = 2
-  MaxCalls = 3
+  MaxCalls = 1
   CarryLayers = {"http", "json", "signed"}
   X509Chains = {"x509"}
-  KeyOptions = {"bothDifferent"}
+  KeyOptions <- AllKeyOptions
   ShapeChains = {}
   ProbeClasses = {}
   ReplaySources = {}
